@@ -1,7 +1,8 @@
 (* Runs C14 cases on the model extracted from Coq (c14x.ml).  Input: the case line of
    harness/c14_data.c followed by " @ idx:hexaddr ..." (the addresses the implementation reported,
    used as the allocator/thunk/link-environment oracle).  Output: the harness's line without the
-   A part; unspecified bytes print as "??". *)
+   A part, except that a section prints as head:allocated/needed:bytes (needed = bytes the items
+   occupy); unspecified bytes print as "??". *)
 open C14x
 
 let rec nat_of_int n = if n <= 0 then O else S (nat_of_int (n - 1))
@@ -100,7 +101,7 @@ let run_case line =
         let h = nat_of_int i in
         let alloc = int_of_nat (sec_alloc items h) in
         let img = image base items h in
-        Buffer.add_string b (Printf.sprintf " %d:%d:" i alloc);
+        Buffer.add_string b (Printf.sprintf " %d:%d/%d:" i alloc (List.length img));
         let n = ref 0 in
         List.iter (fun c -> incr n; match c with
             | Some z -> Buffer.add_string b (Printf.sprintf "%02x" (int_of_z z))
